@@ -61,8 +61,8 @@ type PPkg struct {
 	Imports []int    `json:"imports,omitempty"`
 	PkgTags []PTag   `json:"pkg_tags,omitempty"`
 	Types   []PType  `json:"types"`
-	Extra   []string `json:"extra,omitempty"` // pre-existing extra files
-	Edit    int      `json:"edit,omitempty"`  // content variant of an extra source file (history steps change it)
+	Extra   []string `json:"extra,omitempty"`   // pre-existing extra files
+	Edit    int      `json:"edit,omitempty"`    // content variant of an extra source file (history steps change it)
 	LineDir bool     `json:"linedir,omitempty"` // the extra .go files open with a //line directive ahead of the package clause (earlier outputs name a template, extra.go names the output of a generator in a neighbouring package)
 }
 
@@ -83,6 +83,7 @@ type PScn struct {
 	Prev    string             `json:"prev"`             // "none" | "corrupt" | one letter per package: c(orrect) s(tale) m(issing)
 	GoVer   string             `json:"go,omitempty"`     // go directive, default 1.24
 	Kill    string             `json:"kill,omitempty"`   // gen@pkgpath@type: os.Exit inside that GenerateType call
+	Cancel  string             `json:"cancel,omitempty"` // gen@pkgpath@type: the context handed to Execute is cancelled inside that GenerateType call (which then returns normally)
 	Order   []int              `json:"order,omitempty"`  // permutation of Entry positions (entrypoint order)
 	Runs    int                `json:"runs,omitempty"`   // >1: run Execute several times in a row (fresh context each)
 	Alone   int                `json:"alone,omitempty"`  // >0: run only package index Alone-1 as entrypoint, without All (C05 reference)
@@ -371,11 +372,13 @@ func (s *PScn) prevSumText(hashes map[string]string) (string, bool) {
 // ---------------------------------------------------------------- recording generators
 
 type script struct {
-	custom map[string][]PItem
-	reacts map[string]string
-	kill   string
-	calls  []string
-	bodies map[string]*strings.Builder // pkgpath/gen → what was handed to Render, in order
+	custom   map[string][]PItem
+	reacts   map[string]string
+	kill     string
+	cancelAt string
+	cancel   func()
+	calls    []string
+	bodies   map[string]*strings.Builder // pkgpath/gen → what was handed to Render, in order
 }
 
 var curScript *script
@@ -397,6 +400,9 @@ func (g *recState) do(c gengo.Context, pkg, typ string, isAlias bool) error {
 	key := g.name + "@" + pkg + "@" + typ
 	if sc.kill == key {
 		os.Exit(97)
+	}
+	if sc.cancelAt == key && sc.cancel != nil {
+		sc.cancel() // the caller gives up while the run is under way; this call goes on as scripted
 	}
 	n := g.count
 	g.count++
@@ -715,7 +721,10 @@ func (s *PScn) executeOnce(dir string, sc *script) (res string, errText string) 
 	if err != nil {
 		return "loaderr", err.Error()
 	}
-	err = ctx.Execute(context.Background(), gs...)
+	cctx, cancel := context.WithCancel(context.Background())
+	defer cancel()
+	sc.cancelAt, sc.cancel = s.Cancel, cancel
+	err = ctx.Execute(cctx, gs...)
 	if err != nil {
 		errText = err.Error()
 	}
